@@ -105,11 +105,10 @@ Definition view_C12 (c : ctx) (items : list item) : view :=
             decided (c12_all (contains_async_trait (h_attrs h)) (future_send (ta_opts a)) sigs
                              (map snd (trait_sigs tr)) (map (fun '(_, s, _) => s) (impl_fns im)) &&
                      sub_attrs_reapplied (h_attrs h) (t_attrs tr) (i_attrs im) &&
-                     forallb (fun d => match ta_impl_trait a with
-                                       | Some n => negb (String.eqb (t_name d) n) ||
-                                                   sub_attrs_reapplied (h_attrs h) (t_attrs d) (i_attrs im)
-                                       | None => true
-                                       end) ds)
+                     match ta_impl_trait a, ds with
+                     | Some _, d :: _ => sub_attrs_reapplied (h_attrs h) (t_attrs d) (i_attrs im)
+                     | _, _ => true
+                     end)
                     (map (fun '(_, s) => kw (s_async s) "async" ++ print_output (s_output s))
                          (trait_sigs tr ++ flat_map trait_sigs ds) ++
                      filter is_async_trait (t_attrs tr ++ flat_map t_attrs ds ++ i_attrs im))
